@@ -27,6 +27,7 @@
 #include "settings.h"
 #include "suppressions.h"
 #include "timer.h"
+#include "verif_trace.h"
 
 #include <cassert>
 #include <cstdlib>
@@ -66,6 +67,7 @@ public:
 
         std::lock_guard<std::mutex> lg(mReportSync);
         mErrorLogger.reportErr(msg);
+        VERIF_EVT("SyncFwd", verif::msgKey(msg) + verif::kb("held", verif::held(mReportSync)));
     }
 
     void reportMetric(const std::string &metric) override {
@@ -103,6 +105,7 @@ public:
         std::lock_guard<std::mutex> l(mFileSync);
         if (mItNextFile != mFiles.end()) {
             file = &(*mItNextFile);
+            VERIF_EVT("Next", verif::kv("file", file->spath()) + verif::kb("held", verif::held(mFileSync)));
             fs = nullptr;
             fileSize = mItNextFile->size();
             ++mItNextFile;
@@ -111,6 +114,7 @@ public:
         if (mItNextFileSettings != mFileSettings.end()) {
             file = nullptr;
             fs = &(*mItNextFileSettings);
+            VERIF_EVT("Next", verif::kv("file", fs->file.spath()) + verif::kb("held", verif::held(mFileSync)));
             fileSize = 0;
             ++mItNextFileSettings;
             return true;
@@ -130,6 +134,7 @@ public:
             // Read file from a file
             result = fileChecker.check(*file);
         }
+        VERIF_EVT("ThreadFileDone", verif::kv("result", result));
         for (const auto& suppr : mSuppressions.nomsg.getSuppressions()) {
             // need to transfer all inline suppressions because these are used later on
             if (suppr.isInline) {
@@ -192,6 +197,7 @@ static unsigned int STDCALL threadProc(ThreadData *data)
         data->status(fileSize);
     }
 
+    VERIF_EVT("ThreadEnd", verif::kv("result", result));
     return result;
 }
 
@@ -212,10 +218,12 @@ unsigned int ThreadExecutor::check()
         }
     }
 
+    VERIF_EVT("ThreadsSpawned", verif::kv("n", static_cast<long>(threadFutures.size())));
     unsigned int result = std::accumulate(threadFutures.begin(), threadFutures.end(), 0U, [](unsigned int v, std::future<unsigned int>& f) {
         return v + f.get();
     });
 
+    VERIF_EVT("ThreadsJoined", verif::kv("result", result));
     return result;
 }
 
